@@ -28,8 +28,9 @@ def sub_of(s):
     if len(s.args) < 3:
         raise AnchorLost(f"site #{s.n}: `{s.callee}` with {len(s.args)} arguments before the continuation")
     t = spec_text(s.args[2]).strip()
-    if s.args[2].strip() == "head.clone()":
-        t = "*head"          # anf_list: `head` is a reference into the slice
+    mc = re.fullmatch(r"(head|last|first)\.clone\(\)", s.args[2].strip())
+    if mc:
+        t = "*" + mc.group(1)          # anf_list: a reference into the slice
     if t.startswith("&"):
         t = t[1:].strip()
     if s.callee == "anf_list":
@@ -334,6 +335,8 @@ UNIT = Unit(
            obligation="an operand that is a variable or literal is handed to k as it is; any other operand is normalised and its final step bound, LAST, to a fresh name that k gets",
            contract="requires forall|c: ImmExpr| k.requires((c,)),\n ensures imm_post(e, k, r),\n decreases e, 1int,"),
         Fn(file=A, name="anf_list", ret="r", rules=RULES + [("cps", annot_list)],
+           pre_rewrites=[(re.compile(r"if let Some\(\((\w+), (\w+)\)\) = (\w+)\.split_last\(\) \{"), r"if \3.len() > 0 { let \1 = &\3[\3.len() - 1]; let \2 = slice_subrange(\3, 0, \3.len() - 1);", "*"),
+                         (re.compile(r"if let Some\(\((\w+), (\w+)\)\) = (\w+)\.split_first\(\) \{"), r"if \3.len() > 0 { let \1 = &\3[0]; let \2 = slice_subrange(\3, 1, \3.len());", "*")],
            rewrites=[VC, ("es.is_empty()", "es.len() == 0", "*"), ("&es[1..]", "slice_subrange(es, 1, es.len())", "*")],
            obligation="the operands of a list are named left to right, each once; k gets their immediates in the same order",
            contract="requires forall|c: Vec<ImmExpr>| k.requires((c,)),\n ensures list_post(es@, k, r),\n decreases es@, 2int,"),
